@@ -714,6 +714,16 @@ impl StakingCheck {
                                                 break;
                                             }
                                         }
+                                        // an entry (and the reward accrued on it) may go with a delegation that is removed
+                                        // entirely: p = 1, or the validator's whole-token total reached zero (section 6);
+                                        // the total is positive for certain while somebody is still shown a whole token
+                                        if let (Some(x), None) = (b, rew_after[k]) {
+                                            let whole_left: u128 = (0..N_DELEGATORS).map(|d| w.pairs.get(&(d, vi)).map_or(0, |p| p.lo)).sum();
+                                            if *x > 0 && pa < 1_000_000_000_000_000_000 && (k.1 != vi || whole_left > 0) {
+                                                out.push(v("C16", "slash-dropped-rewards", format!("step {}: {:?} (validator total still positive) dropped the accrued reward {} of (delegator{}, validator{})", step, op, x, k.0, k.1)));
+                                                break;
+                                            }
+                                        }
                                     }
                                 }
                                 if out.is_empty() && (w.snapshot_balances() != bal_before || w.real_pool() != pool_before) {
@@ -940,7 +950,7 @@ impl Check for StakingCheck {
         let mut unbonding_time = unbonding_time;
         // scenario templates: shapes that random operations reach only rarely; random operations follow
         let (mut apr, mut commissions, mut funds): (u128, Vec<u64>, Vec<u64>) = (apr, commissions, funds);
-        match g.weighted(&[12, 2, 2, 2, 2]) {
+        match g.weighted(&[12, 2, 2, 2, 2, 2]) {
             3 => {
                 // rewards that are whole tokens although the per-token rate (total reward / total stake)
                 // does not terminate in 18 decimals: two delegators with 300k and 600k on one validator,
@@ -956,6 +966,20 @@ impl Check for StakingCheck {
                 ops.push(SOp::Advance(if g.bool() { YEAR / 3 } else { YEAR / 9 * g.range(1, 9) }));
                 ops.push(SOp::Withdraw(0, v));
                 ops.push(SOp::Withdraw(1, v));
+            }
+            5 => {
+                // a delegator with accrued rewards is slashed below one token while the validator keeps whole
+                // tokens of somebody else
+                let v = g.below(nval) as u8;
+                let k = g.range(2, 1000);
+                funds[0] = funds[0].max(10);
+                funds[1] = k + g.range(0, 3);
+                ops.push(SOp::Delegate(0, v, SAmt::Half, false));
+                ops.push(SOp::Delegate(1, v, SAmt::Exact(k), false));
+                ops.push(SOp::Advance(g.range(YEAR / 12, YEAR)));
+                ops.push(SOp::Undelegate(1, v, SAmt::Exact(k - 1), false));
+                ops.push(SOp::Slash(v, PSpec::Half));
+                ops.push(SOp::Advance(g.range(1, 1000)));
             }
             4 => {
                 // fractional delegations on both sides of a redelegation of the whole visible amount:
